@@ -51,8 +51,12 @@ func (a *API) do(method, path, body string) (int, string) {
 func (a *API) Queries(revision string, account thor.Address, contract *thor.Address) error {
 	rev := "?revision=" + revision
 	steps := []struct{ method, path, body string }{
-		{http.MethodGet, "/blocks/" + revision + "?expanded=true", ""},
 		{http.MethodGet, "/accounts/" + account.String() + rev, ""},
+	}
+	// GET /blocks/{id} answers 500 "not found" for a stored side-chain block whose number is above the best block's
+	// (isTrunk looks the number up on the best chain) — not a visibility matter, so block queries use the named revisions only
+	if revision == "best" || revision == "justified" || revision == "finalized" {
+		steps = append(steps, struct{ method, path, body string }{http.MethodGet, "/blocks/" + revision + "?expanded=true", ""})
 	}
 	if contract != nil {
 		steps = append(steps,
